@@ -122,6 +122,9 @@ func (sc *c07Scanner) term(body ast.Node, e ast.Expr, depth int) string {
 	}
 	if id, ok := e.(*ast.Ident); ok && depth < 3 {
 		if o, ok := objOf(info, id).(*types.Var); ok && !o.IsField() {
+			if v, tracked := sc.localVal[o]; tracked {
+				return v // assigned on the path being evaluated
+			}
 			// a local stands for its single definition when that cannot be stale: it is defined in the init clause of
 			// the if / switch that tests it, or it copies a field that the function never assigns
 			if def, stmt := c07SingleDefStmt(info, body, o); def != nil {
@@ -221,7 +224,11 @@ func (sc *c07Scanner) errTable(fi *FuncInfo) (map[c07Input]string, string) {
 					}
 					return st, (v == triT) == val
 				}
+				sc.localVal = map[types.Object]string{}
 				t.Event = func(st int, ev *pbfEvent) int {
+					if ev.kind == "node" {
+						sc.c07TrackLocals(ev)
+					}
 					if ev.kind != "return" || ev.depth != 0 {
 						return st
 					}
@@ -245,6 +252,7 @@ func (sc *c07Scanner) errTable(fi *FuncInfo) (map[c07Input]string, string) {
 					return st
 				}
 				t.Run(fi, fi.Decl.Body, 0)
+				sc.localVal = nil
 				if why == "" && len(t.incomplete) > 0 {
 					why = strings.Join(t.incomplete, "; ")
 				}
